@@ -6,6 +6,9 @@ Correspondence (model vs real code)
   rtrip   in-house formats: view of the graph read back;  gml / dot (`rtrip3p`): the real
           third-party parser's nodes/edges are sent through the model's `relabel` / `bipnx`
   read    arbitrary / mutated texts of the in-house formats: outcome class and resulting graph
+  readf   the same through a real text-mode FILE (universal newlines) against the model's character-level
+          reader `readText true` (the function the character-level theorems of Props/C14/Text.lean speak about)
+  rtripf  write to a real file, read the file back: view of the graph vs the model's `rtripf`
   relabel `from_networkx` on networkx graphs with arbitrary integer or string labels
   dotread hand-made dot texts with arbitrary node names: real pydot parse -> the model's dot-branch relabelling
   read3p  mutated gml / dot texts (no model: the third-party parsers are not modelled)
@@ -47,13 +50,16 @@ RULE = ("graphs: four types x shapes (empty, isolated vertices, paths, stars, co
         "backward edges) + hand-written corpus + random token soups; distinct = distinct request line; "
         "non-trivial = graph with an edge / text with a digit")
 ASSUMPTIONS = [
-    "texts are ASCII (Python's int() also accepts non-ASCII decimal digits; outside the lexer model)",
+    "decimal digits are ASCII (Python's int() also accepts non-ASCII decimal digits; outside the lexer model); other non-ASCII "
+    "characters (blanks, line separators, letters) occur in the generated names and texts",
+    "numbers of 7..4300 digits are not sent to the model as sizes (list-based model; the real classes would allocate as much)",
     "streams are io.StringIO or files of a private temp dir; a text-mode file translates \\r\\n to \\n before the reader",
 ]
 TRUSTED_EXTRA = [
     "gml / dot: networkx.read_gml / write_gml, networkx.nx_pydot.read_dot / write_dot (pydot) are third party and not "
     "modelled; the model covers normalize_networkx_labels + from_networkx on the node/edge lists they return",
-    "the lexer (Python str.split/strip/int on ASCII) is compared on every read request, not proven",
+    "the lexer (model of Python readlines/str.split/strip/int, ASCII decimal digits) is proven to invert the in-house writers on "
+    "their own output (Props/C14/Text.lean); on every other text it is compared on every read / readf request, not proven",
 ]
 NOTES = []
 
@@ -301,10 +307,10 @@ def _deep(x):
     return x
 
 
-def read_oracle(text, ty, fmt):
+def read_oracle(text, ty, fmt, via="stringio"):
     def oracle():
         try:
-            G = read_text(text, ty, fmt)
+            G = read_text(text, ty, fmt, via)
         except ValueError:
             return None
         except Exception as e:
@@ -313,7 +319,9 @@ def read_oracle(text, ty, fmt):
             return None
         if fmt not in SUPPORTED[ty]:
             return {"reader": "accepted a format not supported for the type"}
-        kind, val = REF[fmt](text, ty)
+        # a text-mode file hands "\r\n" and "\r" to the reader as "\n"
+        seen = text if via == "stringio" else text.replace("\r\n", "\n").replace("\r", "\n")
+        kind, val = REF[fmt](seen, ty)
         got = _deep(canon(G, ty))
         if kind == "invalid":
             return {"reader": "accepted a malformed file", "why_malformed": val, "graph": got, "text": text[:400]}
@@ -454,6 +462,25 @@ CORPUS_3P = [
 ]
 
 
+HUGE_RE = re.compile(r"[0-9]+")
+
+
+def huge(text):
+    """a number of 7 .. 4300 digits: as a declared size it makes the list-based model (and, for kthlist / dimacs, the real
+    classes too) allocate that many adjacency lists.  Such texts are outside the resource range of the correspondence; the
+    matrix reader (dict-based bipartite graphs) still handles them, so there the oracle runs."""
+    return any(6 < len(m.group().lstrip("0")) <= 4300 for m in HUGE_RE.finditer(text))
+
+
+def build_huge(suite, info, via):
+    ty, fmt, text = info["ty"], info["fmt"], info["text"]
+
+    def impl():
+        return ok("-")
+    return Case(suite, "ack3p", impl, read_oracle(text, ty, fmt, via) if fmt == "matrix" else None,
+                cls="{}:{}:huge-number".format(fmt, ty), nontrivial=False, info=info)
+
+
 # ---------------------------------------------------------------- build
 def graph_nontrivial(g):
     return len(g["edges"]) > 0
@@ -466,17 +493,26 @@ def build(suite, info):
         def impl():
             t = write_text(make_graph(ty, g), ty, fmt, name)
             return ok("1 " + " ".join(str(x) for x in enc_str(t)))
-        r = req("wgraph", FMT[fmt], TY[ty], enc_str(name), enc_g(ty, g))
+        r = req("wgraph", FMT[fmt], TY[ty], enc_str(str(name)), enc_g(ty, g))
         return Case(suite, r, impl, roundtrip_oracle(ty, fmt, g, name, info.get("via", "stringio")),
                     cls=info.get("cls") or "{}:{}:{}".format(fmt, ty, info.get("shape", "")),
                     nontrivial=graph_nontrivial(g), info=info)
+    if suite == "rtrip" and len(info["g"]["edges"]) > 40000:
+        # files of about 1 MiB (thorough tier): the list-based model needs minutes per graph (its edge-set test is a linear
+        # scan, as transcribed), so only the real round trip is checked, by the oracle — which is what the size is there for
+        ty, fmt, g, name = info["ty"], info["fmt"], info["g"], info.get("name", "G")
+
+        def impl():
+            return ok("-")
+        return Case(suite, "ack3p", impl, roundtrip_oracle(ty, fmt, g, name, info.get("via", "stringio")),
+                    cls="{}:{}:{}:oracle-only".format(fmt, ty, info.get("shape", "")), nontrivial=True, info=info)
     if suite == "rtrip":
         ty, fmt, g, name = info["ty"], info["fmt"], info["g"], info.get("name", "G")
 
         def impl():
             t = write_text(make_graph(ty, g), ty, fmt, name)
             return ok(view(read_text(t, ty, fmt)))
-        r = req("rtrip", FMT[fmt], TY[ty], enc_str(name), enc_g(ty, g))
+        r = req("rtrip", FMT[fmt], TY[ty], enc_str(str(name)), enc_g(ty, g))
         return Case(suite, r, impl, roundtrip_oracle(ty, fmt, g, name, info.get("via", "stringio")),
                     cls="{}:{}:{}".format(fmt, ty, info.get("shape", "")), nontrivial=graph_nontrivial(g), info=info)
     if suite == "rtrip3p":
@@ -492,6 +528,8 @@ def build(suite, info):
             cls = "dot:n>=10" if order >= 10 else "dot:n<10"
         return Case(suite, r, impl, roundtrip_oracle(ty, fmt, g, info.get("name"), info.get("via", "stringio")),
                     cls=cls, nontrivial=graph_nontrivial(g), info=info)
+    if suite in ("read", "readf") and huge(info["text"]):
+        return build_huge(suite, info, "stringio" if suite == "read" else "file")
     if suite == "read":
         ty, fmt, text = info["ty"], info["fmt"], info["text"]
 
@@ -500,6 +538,31 @@ def build(suite, info):
         r = req("rgraph", FMT[fmt], TY[ty], enc_str(text))
         return Case(suite, r, impl, read_oracle(text, ty, fmt), cls="{}:{}:{}".format(fmt, ty, info.get("kind", "")),
                     nontrivial=any(c.isdigit() for c in text), info=info)
+    if suite == "readf":
+        ty, fmt, text = info["ty"], info["fmt"], info["text"]
+
+        def impl():
+            return ok(view(read_text(text, ty, fmt, "file")))
+        r = req("rgraphf", FMT[fmt], TY[ty], enc_str(text))
+        return Case(suite, r, impl, read_oracle(text, ty, fmt, "file"), cls="{}:{}:{}".format(fmt, ty, info.get("kind", "")),
+                    nontrivial=any(c.isdigit() for c in text), info=info)
+    if suite == "rtripf":
+        ty, fmt, g, name = info["ty"], info["fmt"], info["g"], info.get("name", "G")
+
+        def impl():
+            G = make_graph(ty, g)
+            G.name = name
+            _counter[0] += 1
+            path = os.path.join(_TMP, "r{}.{}".format(_counter[0], fmt))
+            try:
+                writeGraph(G, path, ty, fmt)
+                return ok(view(quiet(readGraph, path, ty, fmt)))
+            finally:
+                if os.path.exists(path):
+                    os.unlink(path)
+        r = req("rtripf", FMT[fmt], TY[ty], enc_str(str(name)), enc_g(ty, g))
+        return Case(suite, r, impl, roundtrip_oracle(ty, fmt, g, name, "file"),
+                    cls="{}:{}:{}".format(fmt, ty, info.get("shape", "")), nontrivial=graph_nontrivial(g), info=info)
     if suite == "relabel":
         ty, nodes, edges = info["ty"], info["nodes"], [tuple(e) for e in info["edges"]]
         N = networkx.Graph() if ty != "digraph" else networkx.DiGraph()
@@ -613,12 +676,15 @@ def gen_graph(rng, ty, shape=None, big=None):
 
 NAMES = ["G", "", "a graph with spaces", "  padded  ", "c", "p edge 3 2", "e 1 2", "5", "1 : 2 0", "x:y", "# n",
          "two\nlines", "a\np edge 5 0\ne 1 2", "x\n1 : 2 0\n3", "trailing\n", "\n", "a\n\nb", "cr\rlf\r\nvt\x0bff\x0cfs\x1cgs\x1drs\x1eus\x1fend",
-         " \n \t\n"]
+         " \n \t\n",
+         # non-ASCII: letters, blanks, the line boundaries of str.splitlines() beyond ASCII; names that are not strings
+         "caf\u00e9 \u03b1\u03b2 \u4e2d", "nel\x85ls\u2028ps\u2029end", "\u00a0nbsp\u3000wide ", "\x85", "a\r", "\r\nb", "tab\there",
+         "c\u2028c 7\u20291 : 2 0", 5, 0, 1.5, True, [1, 2]]
 JUNK_LINES = ["", " ", "\t", "c", "c comment", "C comment", " c indented", "# hash", "x", "0", "1", "-1", "99",
               "1 : 0", "1 : 1 0", "2 : 1 0", "1 : 2 0", "1 : 2", "1 2 0", ": 0", "1 :: 0", "p edge 2 1", "p edge 2", "p col 2 1",
               "e 1 2", "e 2 1", "e 1 1", "e 1", "e 1 2 3", "edge 1 2", "n 1 2", "1 0", "0 1", "2", "1 x", "+1", "1_0", "01", "\r"]
 ODD_TOKENS = ["0", "-1", "99", "x", "1x", "1.5", "+1", "1_0", "01", "-0", "", "1e1", "0x1", "--1", "_1", "1_", "1__0", ":", "#"]
-CHARS = list(": \t\rcpe019-#\x1cx+_\n")
+CHARS = list(": \t\rcpe019-#\x1cx+_\n") + ["\x85", "\u00a0", "\u2028", "\u3000", "\u00e9", "\x0b", "\x0c", "\x1f"]
 
 
 def mutate(rng, text, fmt, ty):
@@ -719,6 +785,24 @@ CORPUS_TEXTS = [
     ("matrix", "bipartite", "0 3", "valid"), ("matrix", "bipartite", "3 0\n\n\n\n", "valid"), ("matrix", "bipartite", "2\n", "short"),
     ("matrix", "bipartite", "1 2\n1 2\n", "entries"), ("matrix", "bipartite", "1 2 1\n1\n", "valid"), ("matrix", "bipartite", "2 2 1 0 0 1", "valid"),
     ("matrix", "bipartite", "1 1\n1\nx\n", "trailing-junk"), ("matrix", "bipartite", "1 1\n1\n# end\n\n", "valid"),
+    # CPython's limit of 4300 digits for int(): at the limit fine, beyond it ValueError (leading zeros count, '_' do not)
+    ("kthlist", "simple", "2\n1 : " + "0" * 4299 + "2 0\n", "digit-limit"), ("kthlist", "simple", "2\n1 : " + "0" * 4300 + "2 0\n", "digit-limit"),
+    ("kthlist", "digraph", "0" * 4299 + "3\n", "digit-limit"), ("kthlist", "digraph", "0" * 4300 + "3\n", "digit-limit"),
+    ("kthlist", "bipartite", "3\n" + "0" * 4300 + "1 : 3 0\n", "digit-limit"), ("kthlist", "simple", "2\n1 : 2 " + "0" * 4301 + "\n", "digit-limit"),
+    ("kthlist", "simple", "2\n1 : " + "9" * 4301 + " 0\n", "digit-limit"), ("kthlist", "simple", "2\n1 : " + "0_" * 4299 + "2 0\n", "digit-limit"),
+    ("kthlist", "simple", "2\n1 : " + "0_" * 4300 + "2 0\n", "digit-limit"), ("kthlist", "simple", "+" + "0" * 4299 + "2\n", "digit-limit"),
+    ("dimacs", "simple", "p edge 3 1\ne 1 " + "0" * 4299 + "2\n", "digit-limit"), ("dimacs", "simple", "p edge 3 1\ne 1 " + "0" * 4300 + "2\n", "digit-limit"),
+    ("dimacs", "digraph", "p edge " + "0" * 4300 + "3 0\n", "digit-limit"), ("dimacs", "dag", "p edge 3 " + "0" * 4300 + "\n", "digit-limit"),
+    ("dimacs", "dag", "p edge 3 " + "0" * 4299 + "\n", "digit-limit"), ("dimacs", "simple", "p edge 2 " + "1" * 4301 + "\n", "digit-limit"),
+    ("matrix", "bipartite", "1 1\n" + "0" * 4299 + "1\n", "digit-limit"), ("matrix", "bipartite", "1 1\n" + "0" * 4300 + "1\n", "digit-limit"),
+    ("matrix", "bipartite", "0" * 4301 + " 0\n", "digit-limit"), ("matrix", "bipartite", "-" + "0" * 4300 + " 0\n", "digit-limit"),
+    # non-ASCII blanks are blanks for strip() / split(); "\x85" and "\u2028" are NOT line ends for readlines()
+    ("kthlist", "simple", "3\u00a0\n1\u3000:\u20022\x850\n", "odd-space"), ("kthlist", "simple", "3\u20281 : 2 0\n", "odd-space"),
+    ("dimacs", "simple", "\u00a0p\u2003edge 2 1\x85\ne\u30001\u20282\n", "odd-space"), ("matrix", "bipartite", "1\u00a02\x851\u20280", "odd-space"),
+    ("kthlist", "simple", "c caf\u00e9\n2\n1 : 2 0\n", "non-ascii"), ("dimacs", "simple", "c \u4e2d\np edge 2 1\ne 1 2\n\u00e9 1 2\n", "non-ascii"),
+    ("kthlist", "simple", "2\n1 : 2 0 \u00e9\n", "non-ascii"), ("matrix", "bipartite", "1 1\n1\n#\u00e9\n", "non-ascii"),
+    # a declared size beyond any memory: matrix files are still answered (ValueError: the entries are missing)
+    ("matrix", "bipartite", "100000000000 3\n1 0 1\n", "huge"), ("matrix", "bipartite", "2 99999999\n1 0\n", "huge"),
     # formats that are not supported for the type
     ("matrix", "simple", "1 1\n1\n", "unsupported"), ("dimacs", "bipartite", "p edge 2 1\ne 1 2\n", "unsupported"), ("matrix", "dag", "0 0\n", "unsupported"),
 ]
@@ -732,6 +816,15 @@ def cases(ctx):
     # ---- corpus: hand-written texts
     for fmt, ty, text, kind in CORPUS_TEXTS:
         infos.append(("read", dict(fmt=fmt, ty=ty, text=text, kind="corpus-" + kind)))
+        infos.append(("readf", dict(fmt=fmt, ty=ty, text=text, kind="corpus-" + kind)))
+    # ---- corpus: line ends as a text-mode file sees them ("\r\n", lone "\r") vs a StringIO (only "\n" ends a line)
+    for fmt, ty, text in (("kthlist", "simple", "3\r\n1 : 2 0\r\n2 : 1 0\r\n"), ("kthlist", "simple", "3\r1 : 2 0\r2 : 1 0\r3 : 0"),
+                          ("kthlist", "digraph", "c x\r3\n\r1 : 2 0\r\r\n"), ("kthlist", "bipartite", "3\r1 : 3 0\n\r2 : 3 0"),
+                          ("dimacs", "simple", "p edge 2 1\re 1 2\r"), ("dimacs", "dag", "c\rp edge 3 2\r\ne 1 2\n\re 2 3"),
+                          ("dimacs", "simple", "c p edge 9 9\rp edge 2 0"), ("matrix", "bipartite", "2 2\r1 0\r\n0 1\r"),
+                          ("matrix", "bipartite", "# c\r1 1\r1"), ("matrix", "bipartite", "1 1 # c\r1")):
+        infos.append(("read", dict(fmt=fmt, ty=ty, text=text, kind="corpus-line-ends")))
+        infos.append(("readf", dict(fmt=fmt, ty=ty, text=text, kind="corpus-line-ends")))
     # ---- corpus: D15 (dot, string labels sorted lexicographically)
     for ty in ("simple", "digraph", "dag"):
         for n in (9, 10, 11, 12):
@@ -775,6 +868,8 @@ def cases(ctx):
                         if fmt in INHOUSE:
                             infos.append(("write", dict(ty=ty, fmt=fmt, g=g, name=name, shape=sh, via=via)))
                             infos.append(("rtrip", dict(ty=ty, fmt=fmt, g=g, name=name, shape=sh, via="stringio")))
+                            if rng.random() < .5:
+                                infos.append(("rtripf", dict(ty=ty, fmt=fmt, g=g, name=name, shape=sh)))
                         else:
                             infos.append(("rtrip3p", dict(ty=ty, fmt=fmt, g=g, name=name if fmt == "gml" else "G", shape=sh, via=via)))
     # ---- files beyond any buffer size (64 KiB; 1 MiB in the thorough tier) — seeded change C14-6
@@ -782,6 +877,8 @@ def cases(ctx):
         for fmt in SUPPORTED[ty]:
             if fmt not in INHOUSE:
                 continue
+            if quick and rng.random() < .5:      # quick tier: about half of the (type, format) pairs per seed (cost: the model's
+                continue                         # edge set is a list); the thorough tier does them all, at three sizes
             for n in ([170] if quick else [170, 230, 520]):
                 if ty == "bipartite":
                     l, r = n - 20, n + 11
@@ -815,6 +912,8 @@ def cases(ctx):
                 ty = rng.choice(list(TY))
                 kind = "other-type"
         infos.append(("read", dict(fmt=fmt, ty=ty, text=text, kind=kind)))
+        if rng.random() < .3:
+            infos.append(("readf", dict(fmt=fmt, ty=ty, text=text, kind=kind)))
     # ---- from_networkx with arbitrary labels
     reps = 150 if quick else 2500
     for _ in range(reps):
